@@ -5,3 +5,5 @@ import Vise.Codec
 import Vise.Cache
 import Vise.State
 import Vise.Render
+import Vise.Vm
+import Vise.Engine
